@@ -191,7 +191,72 @@ def check_text(ns, res, text, exp, origin):
     return True
 
 
+def norm_eol(tree):
+    """Line ends inside tokens as a text-mode reader delivers them."""
+    if isinstance(tree, list):
+        return [norm_eol(x) for x in tree]
+    return tree.replace('\r\n', '\n').replace('\r', '\n')
+
+
+def files_shard(args):
+    """The reader as the executable uses it: the text comes from a *file*
+    (all three line-end conventions, LF, CRLF and lone CR, also after
+    comments and inside literals) and goes through ddSMT's own way of
+    reading it; `ddsmt --parser-test` prints what was parsed.  Line ends
+    inside literals and quoted symbols are compared modulo the convention
+    (a text-mode reader may translate them)."""
+    import os
+    import shutil
+    import subprocess
+    res = common.ShardResult()
+    r = common.rng('c08files', args['shard'])
+    base = common.scratch_dir('c08f')
+    try:
+        for i in range(args['n']):
+            eol = r.choice(['\n', '\r\n', '\r'])
+            items = gen_lex.tree(r, depth=r.randint(1, 4),
+                                 width=r.randint(2, 6),
+                                 toplevel_atoms=False,
+                                 cr_ok=(eol != '\n'))
+            seps = [' ', '\t', eol, '  ', ' ' + eol + ' ', eol + eol]
+            text = gen_lex.serialise(r, items, seps, comment_ends=(eol, ),
+                                     final=eol)
+            path = os.path.join(base, f'f{i}.smt2')
+            with open(path, 'wb') as f:
+                f.write(text.encode())
+            p = subprocess.run(
+                [common.PY, os.path.join(common.REPO, 'bin', 'ddsmt'),
+                 '--parser-test', path, path + '.out', 'nocmd'],
+                capture_output=True, env=common.child_env(), timeout=120)
+            res.count('evaluations')
+            res.count('files_read_by_the_executable')
+            res.add_set('file_line_ends', repr(eol))
+            out = p.stdout.decode('utf-8', 'replace')
+            if out.endswith('None\n'):
+                out = out[:-5]
+            want = norm_eol(refreader.norm_tree(refreader.read(text)))
+            try:
+                got = norm_eol(refreader.norm_tree(refreader.read(out)))
+            except refreader.LexError as e:
+                got = f'unreadable ({e})'
+            if p.returncode != 0 or got != want:
+                res.violation(
+                    'file-reader:' + {'\n': 'lf', '\r\n': 'crlf',
+                                      '\r': 'cr'}[eol],
+                    f'ddsmt --parser-test on a file with {eol!r} line ends '
+                    f'(exit status {p.returncode}) printed {str(got)[:300]} '
+                    f'for the text {text[:200]!r}; a conforming reader '
+                    f'gives {str(want)[:300]}',
+                    {'text': text, 'eol': eol,
+                     'stderr': p.stderr.decode('utf-8', 'replace')[-400:]})
+    finally:
+        shutil.rmtree(base, ignore_errors=True)
+    return res.to_dict()
+
+
 def shard(args):
+    if args['kind'] == 'files':
+        return files_shard(args)
     from vlib import dd
     ns = dd.load()
     res = common.ShardResult()
@@ -248,6 +313,9 @@ def run(ctx):
         'shard': i,
         'n': nrand
     } for i in range(nsh)]
+    shards += [{'kind': 'files', 'shard': i,
+                'n': 10 if ctx.tier == 'quick' else 400}
+               for i in range(common.NCPU)]
     results = common.run_shards('checks.c08', shards, timeout=1500)
     common.merge_shards(ctx, results)
     ctx.rule = (
@@ -255,7 +323,9 @@ def run(ctx):
         'positions x 4 file endings x tight/loose parentheses (exhaustive '
         'over that grid, illegal separations skipped); random: gen_lex trees '
         '(depth<=5) serialised with random standard white space; distinct = '
-        'distinct texts; all are non-trivial (>=2 lexemes) by construction')
+        'distinct texts; all are non-trivial (>=2 lexemes) by construction; '
+        'files: texts with LF / CRLF / lone-CR line ends written to files '
+        'and read by the executable itself (ddsmt --parser-test)')
     ctx.exhaustive = False
     ctx.extra['pair_grid_exhaustive'] = True
     ctx.assumptions = [
@@ -265,6 +335,8 @@ def run(ctx):
         'atom without white space (both unspecified/ambiguous otherwise)',
         'comment leaves are compared modulo their trailing line end',
     ]
+    if ctx.counters.get('files_read_by_the_executable', 0) == 0:
+        ctx.inconclusive_because('no file was read through the executable')
     if ctx.counters.get('class_pairs_enumerated', 0) < len(CLASSES)**2:
         ctx.inconclusive_because('pair enumeration incomplete')
 
